@@ -191,7 +191,7 @@ def case_cache(rec, case):
     eb = r.choice([1, 2, 8, 16, 64, 256])
     x = r.random()
     route = case.get("route") or ("sub" if x < 0.01 else "cli" if x < 0.4 else "cmd")
-    src, oe, oc = drive.fresh(wd, ".suit"), drive.fresh(wd, ".suit"), drive.fresh(wd, ".cache")
+    src, oe, oc = drive.fresh(wd, ".suit"), drive.fresh_out(wd, ".suit"), drive.fresh_out(wd, ".cache")
     with open(src, "wb") as fh:
         fh.write(root.bytes)
     extracted, kept, problems = [], {}, []
@@ -306,7 +306,7 @@ def case_single(rec, case):
     name = r.choice(names)
     with_out = r.random() < 0.6
     with_repl = r.random() < 0.5
-    src, oe, of, rp = (drive.fresh(wd, ".suit"), drive.fresh(wd, ".suit"), drive.fresh(wd, ".bin"),
+    src, oe, of, rp = (drive.fresh(wd, ".suit"), drive.fresh_out(wd, ".suit"), drive.fresh_out(wd, ".bin"),
                        drive.fresh(wd, ".bin"))
     with open(src, "wb") as fh:
         fh.write(root.bytes)
